@@ -1,4 +1,5 @@
 import TantivyModel.Proofs.AggAlgebra
+import TantivyModel.Proofs.AggSpecEq
 /-!
 # C14 — Aggregations equal a direct computation and do not depend on partitioning
 
@@ -143,6 +144,40 @@ theorem C14_terms_error_bound_partial {V : Type} (p : TermsP) (t : TermsI V) :
     · exact Or.inl rfl
     · exact Or.inr rfl
 
+/-! ### the direct computation -/
+
+/-- **Collecting and finalising is the direct computation**: for every request tree (metrics,
+terms with order / size / min_doc_count / missing, histogram incl. gap filling, extended and
+hard bounds, range, filter, any nesting) and every list of matching documents, the final result
+of the collected tree is `evalAgg` — counts, keys, min, max exactly, sums in the monoid.
+Hypothesis `DocOK`: no document has two values in one bucket of a histogram / range node (see
+`C14_histogram_dup_counterexample` for what the mechanism does otherwise). -/
+theorem C14_finalize_collect_eq_evalAgg (r : Req) (docs : List Doc) (hok : ∀ d ∈ docs, DocOK r d) :
+    finalize r (collect (M := M) r docs) = evalAgg M r docs :=
+  finalize_collect r docs hok
+
+/-- **The chain closed**: `evalAgg = finalize ∘ collect = finalize ∘ fold merge ∘ map collectSeg`
+for every partition into segments / separately searched indexes, every merge schedule and the
+collector's own fold, when no segment truncated a terms aggregation. -/
+theorem C14_direct_equals_partitioned (r : Req) (parts : List (List Doc)) (t : MTree (Inter M r))
+    (hleaves : t.leaves.Perm (parts.map (collectSeg r)))
+    (hno : ∀ p ∈ parts, harvest (M := M) r (collect r p) = collect r p)
+    (hok : ∀ d ∈ parts.flatten, DocOK r d) :
+    finalize r (t.eval (merge r) (empty r)) = evalAgg M r parts.flatten
+      ∧ finalize r (mergeFruits r (parts.map (collectSeg r))) = evalAgg M r parts.flatten := by
+  obtain ⟨h1, h2⟩ := C14_partition_invariant r parts t hleaves hno
+  refine ⟨by rw [h1]; exact finalize_collect r _ hok, ?_⟩
+  rw [← h2, h1]
+  exact finalize_collect r _ hok
+
+/-- without `DocOK` the statement is false, for the model as for the code: a document with the
+values 1 and 2 in one histogram bucket of width 10 is counted twice -/
+theorem C14_histogram_dup_counterexample :
+    finalize (M := Int) (.hist ⟨0, 10, 0, 0, Option.none, Option.none⟩ .none)
+        (collect _ [[(0, [1, 2])]]) = [(0, 2, ())]
+      ∧ evalAgg Int (.hist ⟨0, 10, 0, 0, Option.none, Option.none⟩ .none) [[(0, [1, 2])]] = [(0, 1, ())] := by
+  decide +kernel
+
 /-- merging after a serialisation round trip that is the identity on intermediate trees gives
 the same result (that postcard's round trip *is* the identity is tested by the harness, not
 proved) -/
@@ -232,6 +267,10 @@ example : histPos 10 0 (-5) = -1 ∧ histPos 10 3 13 = 1 ∧ histPos 10 3 12 = 0
 example : rangeIdx [0, 10, 20] 10 = 2 ∧ rangeIdx [0, 10, 20] (-1) = 0 ∧ rangeIdx [0, 10, 20] 25 = 3 := by
   decide
 example : (TermsP.ofRequest 0 Option.none Option.none Option.none Option.none Option.none).segSize = 100 := by decide
+example : ∀ d ∈ exDocs1 ++ exDocs2, DocOK exReq d := by
+  intro d hd
+  simp only [exDocs1, exDocs2, List.cons_append, List.nil_append, List.mem_cons, List.not_mem_nil, or_false] at hd
+  rcases hd with rfl | rfl | rfl | rfl <;> (simp only [DocOK, exReq]; decide)
 example : [0, 10, 20].Pairwise (fun a b : Int => a < b) := by decide
 /-- a segment with three distinct terms and `segment_size = 2` is truncated: one bucket goes to
 `sum_other_doc_count`, its count is the error bound -/
